@@ -644,5 +644,18 @@ func filterContractForInstance(c *Contract, inst string) *Contract {
 			n.Known = append(n.Known, x)
 		}
 	}
+	if c.Loops != nil {
+		n.Loops = map[int]*LoopSpec{}
+		for k, ls := range c.Loops {
+			nl := *ls
+			nl.Invariants = nil
+			for _, x := range ls.Invariants {
+				if keep(x) {
+					nl.Invariants = append(nl.Invariants, x)
+				}
+			}
+			n.Loops[k] = &nl
+		}
+	}
 	return &n
 }
